@@ -170,6 +170,15 @@ CHECKS["C10"] = {
     "design_ref": "§7 C10, §9",
 }
 
+CHECKS["C17"] = {
+    "category": "model_checking",
+    "technique": "TLA+ Scope.tla checked by TLC over every schedule of every bounded task-tree program; the spec's per-program outcome sets compared with the real scope::run! on a multi-threaded runtime (T2)",
+    "text": "For each program the model yields the exact set of outcomes the scope may return (ok / which error / panic) under any schedule; the real scope must stay "
+            "within it over many perturbed runs, must have joined every task when it returns, and may never hang when all tasks can finish (cancellation reaches waiting tasks).",
+    "note": "Program space: <= 2 (quick) / 3 (thorough) tasks, no nested scopes / blocking tasks; real thread schedules are perturbed, not controlled; no concurrency hook was needed.",
+    "design_ref": "§7 C17",
+}
+
 NOT_YET = "check not built yet (construction in progress; see DESIGN.md §11 build order)"
 NA_REASONS = {}
 
